@@ -162,7 +162,7 @@ class Sandbox:
     def base_env(self):
         return {"HOME": self.p("home")}
 
-    def invoke(self, args, cwd="", env=None, fsize=None, stdin=None, timeout=HANG_S, binary=None, nofile=None):
+    def invoke(self, args, cwd="", env=None, fsize=None, stdin=None, timeout=HANG_S, binary=None, nofile=None, stdout_closed=False):
         """Run `ucg <args>` with cwd (relative to the sandbox root), exactly the
         environment `env` plus HOME, optional RLIMIT_FSIZE (torn write at byte N)."""
         full_env = self.base_env()
@@ -183,16 +183,30 @@ class Sandbox:
 
         t0 = time.monotonic()
         timed_out = False
+        closed_w = None
         try:
-            pr = subprocess.run(argv, cwd=self.p(cwd), env=full_env, stdin=subprocess.DEVNULL if stdin is None else None,
-                                input=stdin, stdout=subprocess.PIPE, stderr=subprocess.STDOUT, timeout=timeout,
-                                preexec_fn=pre, restore_signals=(fsize is None))
-            rc = pr.returncode
-            raw = pr.stdout
+            if stdout_closed:
+                # fault: whoever was reading the program's standard output has gone away (`| head -1`, a pager that was quit);
+                # every write to it fails with EPIPE.  Standard error is still recorded.
+                r_, closed_w = os.pipe()
+                os.close(r_)
+                pr = subprocess.run(argv, cwd=self.p(cwd), env=full_env, stdin=subprocess.DEVNULL, stdout=closed_w, stderr=subprocess.PIPE,
+                                    timeout=timeout, preexec_fn=pre)
+                rc = pr.returncode
+                raw = pr.stderr
+            else:
+                pr = subprocess.run(argv, cwd=self.p(cwd), env=full_env, stdin=subprocess.DEVNULL if stdin is None else None,
+                                    input=stdin, stdout=subprocess.PIPE, stderr=subprocess.STDOUT, timeout=timeout,
+                                    preexec_fn=pre, restore_signals=(fsize is None))
+                rc = pr.returncode
+                raw = pr.stdout
         except subprocess.TimeoutExpired as e:
             timed_out = True
             rc = None
-            raw = e.stdout or b""
+            raw = (e.stderr if stdout_closed else e.stdout) or b""
+        finally:
+            if closed_w is not None:
+                os.close(closed_w)
         wall = time.monotonic() - t0
         sig = None
         status = rc
@@ -202,7 +216,7 @@ class Sandbox:
         out = self.norm(raw.decode("utf-8", "replace"))
         self.invocations += 1
         inv = Inv([self.norm(a) for a in args], cwd, status, sig, timed_out, out, raw, wall)
-        if inv.abnormal():
+        if inv.abnormal() and not stdout_closed:
             self.anomalies.append({"argv": inv.argv, "status": status, "signal": sig, "timed_out": timed_out,
                                    "tail": out[-300:]})
         return inv
